@@ -236,11 +236,15 @@ func (g *G) signersFor(msgs []sdk.Msg, exec int, right int, aminoOK bool) ([]sim
 }
 
 func (g *G) fee(label string) string {
-	switch g.weighted(label, "zero", 3, "small", 6, "two", 1) {
+	switch g.weighted(label, "zero", 3, "small", 6, "two", 1, "magnitude", g.bias("fee-magnitude", 2)) {
 	case "zero":
 		return ""
 	case "two":
 		return "3stake,7umed"
+	case "magnitude":
+		// every order of magnitude the balances allow, and the values around powers of ten and two
+		base := pick(g, label+"-base", []int64{1e4, 1e5, 1e6, 1e7, 1e8, 1e9, 1e10, 1e11, 1 << 31, 1 << 32, 1 << 36})
+		return fmt.Sprintf("%dumed", base+int64(g.intn(label+"-off", 3))-1)
 	}
 	return fmt.Sprintf("%dumed", 1+g.intn(label+"-amt", 5000))
 }
@@ -305,6 +309,10 @@ func (g *G) wrapTx(msgs []sdk.Msg, note string, aminoOK bool) *world.TxStep {
 			ts.Msgs = append([]world.MsgJSON{}, ts.SignedMsgs...)
 			ts.Msgs[i] = world.EncodeMsg(t2)
 			ts.Note += " tampered-after-signing(" + what + ")"
+			if g.chance("prime-checktx", g.bias("prime-checktx", 35)) {
+				ts.PrimeCheckTx = true
+				ts.Note += " genuine-tx-checked-first"
+			}
 			if aminoOK && exec == 0 && ts.Group == 0 && g.chance("tamper-amino", 60) {
 				for k := range ts.Signers {
 					ts.Signers[k].Mode = simnet.ModeAmino
